@@ -1,5 +1,6 @@
 import LeptosModel.Model.Wire
 import LeptosModel.Model.RView
+import LeptosModel.Model.SView
 /-! Line-protocol driver for C04 (op grammar and output format: harness/hx-c04/src/{lib.rs,bin/c04.rs}).
 
 ```
@@ -23,6 +24,7 @@ the fresh render takes the current value of every live component-local signal fr
 node that was already disposed prints `panic ## fail read-disposed` and every further line `dead`
 (the real code panics there: F-C04-2). -/
 open Leptos Leptos.Wire Leptos.RView
+open Leptos.SView (SV SSt)
 open Leptos.Reactive (Expr NodeDef)
 
 /-! ## parsing -/
@@ -182,6 +184,98 @@ def parseView : Nat → List String → Option (Option View × List String)
       pure (none, r)
     else none
 
+/-! ## views with suspense boundaries (`Model/SView.lean`): parsed into `SV`; the `<Transition>`s are numbered in
+document order -/
+
+def parseSV : Nat → List String → Nat → Option (SV × List String × Nat)
+  | 0, _, _ => none
+  | _ + 1, [], _ => none
+  | f + 1, t :: rest, nt =>
+    if t == "t" then
+      match rest with
+      | h :: r => (strOfHex h).map fun s => (.text s, r, nt)
+      | [] => none
+    else if t == "u" then some (.unit, rest, nt)
+    else if t == "el" then
+      match rest with
+      | tag :: n :: r =>
+        if !tags.contains tag then none else do
+        let n ← n.toNat?
+        if n > 16 then none else
+        let (as, r) ← parseAttrs (f + 1) n r
+        let (k, r, nt) ← parseSV f r nt
+        pure (.elem tag as k, r, nt)
+      | _ => none
+    else if t == "seq" then do
+      let (a, r, nt) ← parseSV f rest nt
+      let (b, r, nt) ← parseSV f r nt
+      pure (.seq a b, r, nt)
+    else if t == "dt" then (parseExpr (f + 1) rest).map fun (e, r) => (.dynText e, r, nt)
+    else if t == "ei" || t == "sh" then do
+      let (c, r) ← parseExpr (f + 1) rest
+      let (a, r, nt) ← parseSV f r nt
+      let (b, r, nt) ← parseSV f r nt
+      pure ((if t == "ei" then SV.either c a b else SV.show c a b), r, nt)
+    else if t == "for" || t == "forr" then do
+      let (sel, r) ← parseExpr (f + 1) rest
+      match r with
+      | n :: r =>
+        let n ← n.toNat?
+        if n == 0 || n > 16 then none else
+        let (ls, r) ← parseLists n r
+        if t == "for" then pure (.forKeyed sel ls, r, nt) else
+        let (row, r, nt) ← parseSV f r nt
+        pure (.forRows sel ls row, r, nt)
+      | [] => none
+    else if t == "sus" then do
+      let (k, r, nt) ← parseSV f rest nt
+      pure (.sus k, r, nt)
+    else if t == "tra" then do
+      let (k, r, nt') ← parseSV f rest (nt + 1)
+      pure (.tra nt k, r, nt')
+    else if t == "aw" then
+      match rest with
+      | rid :: r => rid.toNat?.map fun rid => (.aw rid, r, nt)
+      | [] => none
+    else none
+
+def hasTraS : SV → Bool
+  | .elem _ _ k => hasTraS k
+  | .seq a b => hasTraS a || hasTraS b
+  | .either _ a b => hasTraS a || hasTraS b
+  | .show _ a b => hasTraS a || hasTraS b
+  | .forRows _ _ row => hasTraS row
+  | .sus k => hasTraS k
+  | .tra _ _ => true
+  | _ => false
+
+/-- neither branches nor rows -/
+def fixedS : SV → Bool
+  | .either _ _ _ | .show _ _ _ | .forKeyed _ _ | .forRows _ _ _ => false
+  | .elem _ _ k => fixedS k
+  | .seq a b => fixedS a && fixedS b
+  | .sus k => fixedS k
+  | .tra _ k => fixedS k
+  | _ => true
+
+/-- the class of `Model/SView.lean`: expressions over defined nodes (the key only in rows), `aw` leaves of defined
+resources below a boundary, `<Transition>` at a fixed place with nothing but fixed structure below it -/
+def svOk (k nres : Nat) : SV → Bool → Bool → Bool
+  | .text _, _, _ => true
+  | .unit, _, _ => true
+  | .elem _ attrs kid, r, b =>
+    attrs.all (Attr.okL k 0 r) && nodupKeys (attrs.map Attr.key) && svOk k nres kid r b
+  | .seq x y, r, b => svOk k nres x r b && svOk k nres y r b
+  | .dynText x, r, _ => x.okL k 0 r
+  | .either c x y, r, b => c.okL k 0 r && !hasTraS x && !hasTraS y && svOk k nres x false b && svOk k nres y false b
+  | .show c x y, r, b => c.okL k 0 r && !hasTraS x && !hasTraS y && svOk k nres x false b && svOk k nres y false b
+  | .forKeyed sel lists, r, _ => sel.okL k 0 r && !lists.isEmpty && lists.all nodupNat
+  | .forRows sel lists row, r, b =>
+    sel.okL k 0 r && !lists.isEmpty && lists.all nodupNat && !hasTraS row && svOk k nres row true b
+  | .sus kid, r, _ => svOk k nres kid r true
+  | .tra _ kid, r, _ => fixedS kid && svOk k nres kid r true
+  | .aw rid, _, b => b && rid < nres
+
 /-! ## printing -/
 
 def hexStr (s : String) : String := hexOfBytes (s.toUTF8.toList.map UInt8.toNat)
@@ -283,6 +377,27 @@ def showDom (m : IdMap) (st : St) : String × IdMap :=
     | some r => showState m r
     | none => ([], m)
   (s!"E{t}(main;;{",".intercalate ks})", m)
+
+/-- a token stream as the harness prints a DOM without ids: the siblings up to the next unmatched `close` -/
+def showToks : Nat → List Tok → List String × List Tok
+  | 0, ts => ([], ts)
+  | _ + 1, [] => ([], [])
+  | f + 1, t :: rest =>
+    match t with
+    | .close => ([], rest)
+    | .text x =>
+      let (ss, r) := showToks f rest
+      (s!"T:{hexStr x.str}" :: ss, r)
+    | .comment =>
+      let (ss, r) := showToks f rest
+      ("C:-" :: ss, r)
+    | .open tag attrs =>
+      let (ks, r) := showToks f rest
+      let (ss, r) := showToks f r
+      (s!"E({tag};{attrText attrs};{",".intercalate ks})" :: ss, r)
+
+def showSDom (ts : List Tok) : String :=
+  s!"sdom=E(main;;{",".intercalate (showToks (2 * ts.length + 2) ts).1})"
 
 /-- a task's index in spawn order -/
 def taskIx (st : St) (e : Nat) : Nat := (st.tasks.idxOf? e).getD st.tasks.length
@@ -496,6 +611,9 @@ structure DState where
   envs : List (Nat → Int) := []
   /-- the model predicted a panic of the real code (a run read a disposed component-local value) -/
   dead : Bool := false
+  /-- the resources and, once an S view is mounted (`smode`), the whole state (`Model/SView.lean`) -/
+  sst : SSt := {}
+  smode : Bool := false
   deriving Inhabited
 
 /-- the value of the live component-local signal of `scope sid` under the rows keyed `path` -/
@@ -573,26 +691,76 @@ def outLine (d : DState) (pre : String) : DState × String :=
   let (v, d) := verdict d
   (d, pre ++ "ready=" ++ natList r ++ " dom=" ++ dom ++ v)
 
+/-- an S view: the line after an operation (the executor has run to idle) -/
+def sLine (d : DState) : DState × String :=
+  let st := d.sst.settle
+  ({ d with sst := st }, showSDom st.dom ++ " ## ok")
+
+def sigsOnly (defs : Reactive.Prog) : Expr → Bool
+  | .lit _ => true
+  | .rd _ i => match defs[i]? with | some (.sig _) => true | _ => false
+  | .add a b => sigsOnly defs a && sigsOnly defs b
+  | .mulc _ a => sigsOnly defs a
+  | .ite c t e => sigsOnly defs c && sigsOnly defs t && sigsOnly defs e
+  | .seq _ _ => false
+  | .wr _ _ => false
+
 def stepLine (d : DState) (line : String) : DState × String :=
   match words line with
   | ["case", n] => ({}, s!"case {n}")
   | _ =>
   if d.dead then (d, "dead") else
+  if d.smode then
+    match words line with
+    | ["set", id, v] =>
+      match id.toNat?, parseInt v with
+      | some id, some v =>
+        match d.defs[id]? with
+        | some (.sig _) => if d.sst.disposed then sLine d else sLine { d with sst := d.sst.set id v }
+        | _ => (d, "bad-op")
+      | _, _ => (d, "bad-op")
+    | ["resolve", rid] =>
+      match rid.toNat? with
+      | some rid => if rid < d.sst.res.length then sLine { d with sst := d.sst.resolve rid } else (d, "bad-op")
+      | none => (d, "bad-op")
+    | ["idle"] => sLine d
+    | ["dispose"] => if d.sst.disposed then (d, "bad-op") else sLine { d with sst := { d.sst with disposed := true } }
+    | _ => (d, "bad-op")
+  else
   match words line with
+  | "ares" :: toks =>
+    match parseExpr (toks.length + 1) toks with
+    | some (b, []) =>
+      if d.view.isSome || d.skip || !(b.readsBelow d.defs.length) || !(sigsOnly d.defs b) then (d, "bad-op") else
+      ({ d with sst := d.sst.addRes b }, "ok")
+    | _ => (d, "bad-op")
+  | ["resolve", rid] =>
+    match rid.toNat? with
+    | some rid =>
+      if d.view.isSome || rid ≥ d.sst.res.length then (d, "bad-op") else ({ d with sst := d.sst.resolve rid }, "ok")
+    | none => (d, "bad-op")
   | ["sig", v] =>
     match parseInt v with
     | some v =>
       if d.view.isSome || d.skip then (d, "bad-op") else
-      ({ d with st := addSig d.st v, defs := d.defs ++ [.sig v] }, "ok")
+      ({ d with st := addSig d.st v, defs := d.defs ++ [.sig v],
+                sst := { d.sst with defs := d.defs ++ [.sig v], sigs := d.sst.sigs ++ [(d.defs.length, v)] } }, "ok")
     | none => (d, "bad-op")
   | "memo" :: toks =>
     match parseExpr (toks.length + 1) toks with
     | some (b, []) =>
       if d.view.isSome || d.skip || !(b.readsBelow d.defs.length) then (d, "bad-op") else
-      ({ d with st := addMemo d.st b, defs := d.defs ++ [.memo b] }, "ok")
+      ({ d with st := addMemo d.st b, defs := d.defs ++ [.memo b], sst := { d.sst with defs := d.defs ++ [.memo b] } }, "ok")
     | _ => (d, "bad-op")
   | "mount" :: toks =>
     if d.view.isSome || d.skip then (d, "bad-op") else
+    if toks.any fun t => t == "sus" || t == "tra" || t == "aw" then
+      match parseSV (toks.length + 1) toks 0 with
+      | some (v, [], _) =>
+        if !(svOk d.defs.length d.sst.res.length v false false) then (d, "bad-op") else
+        sLine { d with smode := true, sst := d.sst.mount v }
+      | _ => (d, "bad-op")
+    else
     match parseView (toks.length + 1) toks with
     | some (none, []) => ({ d with skip := true }, "skip")
     | some (some v, []) =>
